@@ -89,7 +89,8 @@ Lemma div_sub_step a b (f : nat) :
 Proof.
   intros Hb Hle Hf.
   assert (E : a / b = (a - b) / b + 1).
-  { replace a with ((a - b) + 1 * b) at 1 by lia. apply N.div_add. exact Hb. }
+  { assert (Ea : a = (a - b) + 1 * b) by (clear - Hle; lia).
+    rewrite Ea at 1. apply N.div_add. exact Hb. }
   rewrite E in Hf. clear E.
   set (q := (a - b) / b) in *. clearbody q. lia.
 Qed.
